@@ -12,7 +12,7 @@ import ast
 import glob
 import os
 
-from ..model import dotted, unparse, norm, walk_no_nested
+from ..model import dotted, unparse, norm, walk_no_nested, loop_of
 from ..rulelib import Ctx, nodes_calling, reaching_defs, value_assigned, short
 from ..symeval import SymEval, alternatives, show
 from .c15 import decoder_routes, sinkname
@@ -123,6 +123,8 @@ def run(check):
           r_d.cannot_decide('%s: items are dispatched from a while loop' % label)
         # the loop is left only when exhausted (or by the whole-frame rejection before it)
         for x in walk_no_nested(lp, include_self=False):
+          if isinstance(x, ast.Break) and loop_of(x) is not lp:
+            continue
           if isinstance(x, (ast.Break, ast.Return)) and not isinstance(getattr(x, '_parent', None), ast.ExceptHandler):
             hp = x
             in_handler = False
